@@ -281,3 +281,23 @@ def r18_1b_interval_membership(ctx: Ctx) -> RuleResult:
     else:
         rr.fail(init.qual, f"construction outcomes for (start<end, start==end, start>end) are {res}, expected [ok, ok, raise]", ctx.loc(init))
     return rr
+
+
+@rule("C18")
+def r18_7_year_kinds(ctx: Ctx) -> RuleResult:
+    """YearMonth.to_date_interval and the interval constructors derive month lengths and end dates from a year: it must be the
+    absolute year (home of the analysis: sa/yearkinds.py)."""
+    from ..yearkinds import check_year_kinds
+
+    rr = RuleResult("R18.7", "absolute years and years-of-era are never interchanged when interval end points are derived", min_instances=30)
+    check_year_kinds(ctx, rr)
+    return rr
+
+
+@rule("C18")
+def r18_cfp_calendar_free_productions(ctx: Ctx) -> RuleResult:
+    from ..retention import check_calendar_free_productions
+
+    rr = RuleResult("R18.cfp", "no calendar-bearing result is assembled from calendar-free pieces (day number, instant, local instant) while a calendar-bearing value is in hand", min_instances=100)
+    check_calendar_free_productions(ctx, rr)
+    return rr
